@@ -66,7 +66,8 @@ def reset_logging(names=()):
                 pass
         lg.setLevel(logging.WARNING if not n else logging.NOTSET)
         lg.propagate = True
-    del loghandler._reopenable_handlers[:]
+    if isinstance(getattr(loghandler, "_reopenable_handlers", None), list):
+        del loghandler._reopenable_handlers[:]
 
 
 def load(text):
@@ -259,10 +260,14 @@ def observe(cfg, ids, names):
         else:
             c = classify(h)
             hs.append({"cls": c, "level": h.level, "open": stream_open(h), "alive": True})
-    reg = []
-    for wr in loghandler._reopenable_handlers:
-        h = wr()
-        reg.append(idx.get(id(h), "dead" if h is None else "unknown"))
+    # the registry of reopenable handlers is module-private: when it is not where it used to be, what
+    # reopenFiles()/closeFiles() do to the handlers is still observed, the registry itself is not
+    reg = None
+    if isinstance(getattr(loghandler, "_reopenable_handlers", None), list):
+        reg = []
+        for wr in loghandler._reopenable_handlers:
+            h = wr() if callable(wr) else wr
+            reg.append(idx.get(id(h), "dead" if h is None else "unknown"))
     return {"loggers": loggers, "handlers": hs, "reg": reg}
 
 
@@ -347,6 +352,8 @@ def replay_b(v):
             want = expected_obs(ent["obs"])
             # loggers no factory has been called for are the logging package's own business
             got["loggers"] = {n: l for n, l in got["loggers"].items() if n in want["loggers"]}
+            if got["reg"] is None:
+                want["reg"] = None
             if got != want:
                 bad = "state after %s" % op["o"]
                 break
